@@ -34,6 +34,9 @@ def hashy_program(seed):
         out.append(A.Declare(V(n), I(i * 7)))
     r.shuffle(names)
     out.append(A.pr(A.lst(*[V(n) for n in names])))
+    # function values: their rendering is not specified, but it must be the same on every run
+    out += [A.FuncStmt("named", [V("p")], False, [A.Return(V("p"))]), A.pr(V("named")), A.pr(A.FuncE([], False, [])), A.pr(V("print")),
+            A.pr(A.lst(A.FuncE([V("q")], False, []), A.Prop(S("s"), "len", True))), A.pr(A.obj(("f", V("named"))))]
     kind = r.randrange(4)
     if kind == 0:
         out.append(A.Declare(A.ObjectE([A.Pair(S(k), V("u")) for k in keys[:3]]), V("big")))       # duplicate name in one pattern
